@@ -5,6 +5,7 @@ import (
 	"encoding/binary"
 	"encoding/hex"
 	"fmt"
+	"io"
 )
 
 type Reader struct {
@@ -87,6 +88,16 @@ func (p *Reader) ReadCStringN(n int) string {
 		return ""
 	}
 
+	if n > p.buffer.Len() {
+		// do not allocate n octets for a length that the input cannot satisfy
+		if p.buffer.Len() == 0 {
+			p.opError = newPacketError(io.EOF, "ReadCStringN read")
+		} else {
+			p.opError = newPacketError(fmt.Errorf("read unexpected length"), "ReadBytes")
+		}
+		return ""
+	}
+
 	temp := make([]byte, n)
 
 	r, err := p.buffer.Read(temp)
@@ -113,6 +124,16 @@ func (p *Reader) ReadCStringNWithoutTrim(n int) string {
 	}
 
 	if n <= 0 {
+		return ""
+	}
+
+	if n > p.buffer.Len() {
+		// do not allocate n octets for a length that the input cannot satisfy
+		if p.buffer.Len() == 0 {
+			p.opError = newPacketError(io.EOF, "ReadCStringN read")
+		} else {
+			p.opError = newPacketError(fmt.Errorf("read unexpected length"), "ReadBytes")
+		}
 		return ""
 	}
 
@@ -155,6 +176,16 @@ func (p *Reader) ReadNBytes(n int) []byte {
 	}
 
 	if n <= 0 {
+		return nil
+	}
+
+	if n > p.buffer.Len() {
+		// do not allocate n octets for a length that the input cannot satisfy
+		if p.buffer.Len() == 0 {
+			p.opError = newPacketError(io.EOF, "ReadCStringN read")
+		} else {
+			p.opError = newPacketError(fmt.Errorf("read unexpected length"), "ReadBytes")
+		}
 		return nil
 	}
 
